@@ -563,6 +563,47 @@ func genShutdown() (string, error) {
 	s += "/-- in the graceful-stop stage the state is set before `app.Shutdown()` runs (so the listeners see GracefulStopping) -/\n"
 	s += fmt.Sprintf("def gracefulSetsStateFirst : Bool := %v\n", setPos < shutPos)
 
+	// ---- go-away behaviour of the stream layers
+	const h2src, xsrc, h1src = "pkg/module/http2/mhttp2.go", "pkg/stream/xprotocol/conn.go", "pkg/stream/http/stream.go"
+	h2f, err := parse(h2src)
+	if err != nil {
+		return "", err
+	}
+	ph := findFunc(h2f, "MServerConn", "processHeaders")
+	ga := findFunc(h2f, "MServerConn", "goAway")
+	if ph == nil || ga == nil {
+		return "", fmt.Errorf("MServerConn.processHeaders / goAway not found")
+	}
+	ignores := false
+	for _, st := range ph.Body.List {
+		if i, ok := st.(*ast.IfStmt); ok && exprKey(i.Cond) == "sc.inGoAway" && endsInReturn(i.Body.List) {
+			ignores = true
+		}
+	}
+	sendsLast := len(callsTo(ga, "sc.Framer.startWrite")) == 1 && mentions(ga, "FrameGoAway") && mentions(ga, "sc.maxClientStreamID")
+	s += "/-- HTTP/2 server connection: after its GOAWAY (which carries the last processed stream id) HEADERS of new streams are ignored -/\n"
+	s += fmt.Sprintf("def h2IgnoresNewStreamsAfterGoAway : Bool := %v\ndef h2GoAwayCarriesLastStream : Bool := %v\n", ignores, sendsLast)
+	xf, err := parse(xsrc)
+	if err != nil {
+		return "", err
+	}
+	xg := findFunc(xf, "streamConn", "GoAway")
+	if xg == nil {
+		return "", fmt.Errorf("xprotocol streamConn.GoAway not found")
+	}
+	s += "/-- xprotocol server connection: `GoAway()` sends the protocol's go-away frame (when the codec provides one) as a request to the client -/\n"
+	s += fmt.Sprintf("def xprotocolSendsGoAwayFrame : Bool := %v\n", len(callsTo(xg, "gs.GoAway")) == 1 && len(callsTo(xg, "sender.AppendHeaders")) == 1)
+	h1f, err := parse(h1src)
+	if err != nil {
+		return "", err
+	}
+	h1g := findFunc(h1f, "streamConnection", "GoAway")
+	if h1g == nil {
+		return "", fmt.Errorf("http streamConnection.GoAway not found")
+	}
+	s += "/-- HTTP/1: `GoAway()` does nothing (no notification exists in the protocol) -/\n"
+	s += fmt.Sprintf("def http1GoAwayIsNoop : Bool := %v\n", len(h1g.Body.List) == 0)
+
 	// ---- keeper: signal table
 	kf, err := parse(ksrc)
 	if err != nil {
